@@ -21,7 +21,9 @@ LEVEL_TEXT = ("Every (server version set in 2^{1,2,3,4,5,6,0x41,0x42}) x (server
               "plus seeded two-node histories with independent version sets: attempt versions strictly decrease, skip beta versions, equal "
               "the reference walk, an explicit version is never changed, the number of attempts is bounded by the number of versions, and "
               "the outcome (session at the reference version / NoHostAvailable) matches. Exhaustive over the stated finite space.")
-LEVEL_NOTE = ("Trusted base: sim/world.py, sim/node.py + sim/s5_handshake.py (version rejection, beta error, v5 segment framing via "
+LEVEL_NOTE = ("Two thirds of the histories run with seeded preemption (p 0.2 / 0.5) at the world's yield points, Event.set included, so that the "
+              "thread blocked in Connection.factory can run between the reactor's connected_event.set() and whatever the reactor does next. "
+              "Trusted base: sim/world.py, sim/node.py + sim/s5_handshake.py (version rejection, beta error, v5 segment framing via "
               "spec/segments.py), spec/frames.py. The server dialect is Cassandra's (error text contains 'unsupported protocol version', "
               "answer framed in the server's highest version); other dialects are not modelled. 'Implicit with start X' is a Cluster built "
               "without protocol_version whose public attribute protocol_version is then set to X (X = DSE_V2 is the untouched default).")
@@ -273,7 +275,12 @@ def run(ctx):
             if not quick:
                 ctx.note("primary space stopped by the budget after %d of %d cases of this worker" % (k, len(mine)))
             break
-        one(case, ctx.seed * 7919 + k)
+        # two thirds of the histories run with preemption at the world's yield points (lock acquisitions, Event.set, pushes, submits):
+        # the thread waiting in Connection.factory may be scheduled right after the reactor thread set connected_event
+        pp = (0.0, 0.2, 0.5)[k % 3]
+        one(case[:4] + (pp,) + case[5:], ctx.seed * 7919 + k)
+        if pp:
+            ctx.count("histories_with_preemption_during_the_handshake")
         if case[5][0] and 5 in case[5][0]:
             ctx.count("histories_with_server_side_beta_v5")
     # two-node histories and the allow_beta copy of the space
@@ -310,4 +317,5 @@ def run(ctx):
     k = 1 if quick else 16
     ctx.floor_counters = {"histories": 500 * k, "downgrade_steps": 200 * k, "connects_succeeded": 150 * k, "connects_failed": 100 * k,
                           "explicit_version_rejected_and_kept": 50 * k, "beta_flag_errors_sent": 20 * k,
-                          "histories_connected_with_v5_segment_framing": 10 * k, "histories_with_server_side_beta_v5": 100 * k}
+                          "histories_connected_with_v5_segment_framing": 10 * k, "histories_with_server_side_beta_v5": 100 * k,
+                          "histories_with_preemption_during_the_handshake": 250 * k}
